@@ -370,6 +370,33 @@ def _unary(mg, c, done):
         m = attempt("np_dtype", lambda o: f_np(o["a"], dtype=c["kw_dtype"]), base_=base_d)
         if m:
             return m
+    if name == "absolute" and not base[2]:
+        # op-specific keyword (nan_to_num) must survive every route; operand contains exact zeros
+        def build0():
+            v = _arr(c).copy()
+            v.reshape(-1)[::2] = 0
+            return {"a": mg.tensor(v, constant=c["ca"])}
+
+        def run0(call):
+            return _run(mg, build0, call, c)
+
+        try:
+            b0 = run0(lambda o: mg.absolute(o["a"], nan_to_num=False))
+        except Exception as e:  # noqa: BLE001
+            return Mismatch("baseline_raised", f"mg.absolute(nan_to_num=False): {fmt_exc(e)}")
+        for label, call in [
+            ("abs_alias_kw", lambda o: mg.abs(o["a"], nan_to_num=False)),
+            ("mg_out_tensor_kw", lambda o: mg.absolute(o["a"], out=mg.tensor(np.zeros(b0[0].shape, dtype=b0[1])), nan_to_num=False)),
+            ("mg_out_ndarray_kw", lambda o: mg.absolute(o["a"], out=np.zeros(b0[0].shape, dtype=b0[1]), nan_to_num=False)),
+        ]:
+            done.append(label)
+            try:
+                got = run0(call)
+            except Exception as e:  # noqa: BLE001
+                return Mismatch("spelling_raised", f"absolute via {label}: {fmt_exc(e)}")
+            d = _cmp_results(f"absolute(nan_to_num=False) via {label}", b0, got)
+            if d:
+                return Mismatch("spelling_differs", d)
     return None
 
 
